@@ -16,7 +16,7 @@
 (* Tier B: the logged segments equal PGMOps!BuildIndexP(data,...) and the  *)
 (* logged result is one the Predict/Cap/Widen formula allows (TRACE-DRIFT).*)
 (***************************************************************************)
-EXTENDS PGMOps, Json, IOUtils
+EXTENDS CompressedOps, Json, IOUtils
 
 Trc == ndJsonDeserialize(IOEnv.TRACE)
 NLines == Len(Trc)
@@ -61,6 +61,11 @@ SameIndexAs(Bd, m) == /\ Len(Bd.levels) = Len(m)
                       /\ \A i \in 1..Len(m) : SameLevel(Bd.levels[i], m[i])
 SameIndex(Bd, a) == \E down \in BOOLEAN : SameIndexAs(Bd, BuildIndexP(a, R.eps, R.epsrec, R.sent, R.chunks, down))
 Modelled(a) == Offset /\ R.cls = "PGMIndex" /\ Len(a) <= MaxModelN /\ R.sent <= 30000
+\* tier B for the one-level CompressedPGMIndex: stored segment keys and decoded intercepts = CompressedOps!BuildCompP
+\* (exact midpoint slopes; the float slope of the code can move a rounded intercept by one: drift, never an alarm)
+ModelledC(a) == Offset /\ R.cls = "Compressed" /\ R.epsrec = 0 /\ R.chunks = 1 /\ Len(a) <= MaxModelN /\ R.sent <= 30000
+SameCompressed(Bd, a) == \E up \in BOOLEAN : LET m == BuildCompP(a, R.eps, 1, R.sent, up) IN
+                         Len(Bd.levels) = 1 /\ Bd.levels[1].keys = m.keys /\ Bd.levels[1].ic = m.ics
 
 TBuild ==
   /\ IsEvent("Build")
@@ -74,8 +79,10 @@ TBuild ==
                    (\A i \in 1..Len(Ev.levels) : Ev.levels[i].keys[Len(Ev.levels[i].keys)] = R.sent), "C17", "level_without_sentinel">> >>, 1)
         /\ IF Ev.out = "ok" /\ Modelled(a) /\ ~SameIndex(Ev, a)
            THEN PrintT(<<"TRACE-DRIFT", "C01", l, x, "segments_differ_from_model">>) /\ ndrift' = ndrift + 1
+           ELSE IF Ev.out = "ok" /\ ModelledC(a) /\ ~SameCompressed(Ev, a)
+           THEN PrintT(<<"TRACE-DRIFT", "C08", l, x, "compressed_level_differs_from_model">>) /\ ndrift' = ndrift + 1
            ELSE ndrift' = ndrift
-        /\ cnt' = [cnt EXCEPT !.builds = @ + 1, !.modelled_builds = @ + (IF Ev.out = "ok" /\ Modelled(a) THEN 1 ELSE 0)]
+        /\ cnt' = [cnt EXCEPT !.builds = @ + 1, !.modelled_builds = @ + (IF Ev.out = "ok" /\ (Modelled(a) \/ ModelledC(a)) THEN 1 ELSE 0)]
         /\ segSeen' = ~(Ev.out = "ok" /\ R.cls = "PGMIndex")
   /\ UNCHANGED <<x, R, done>>
 
